@@ -29,7 +29,9 @@ LEAN_MODULES = ['ThermoVerif.Props.C20']
 RULE = ('1–3 helper calls per case, each on fresh real streams over the first n (1–6) of Water, Ethanol, Methanol, '
         'Glycerol, Octane, Propanol with dyadic flows (k·2^-e), outlets pre-filled with material in ~70 % of the '
         'calls; every collection of streams is passed as list / tuple / generator / iter / map (list / tuple where the '
-        'helper indexes it), chemical collections as tuple / list / bare string; 10 % of the cases are holder histories: ONE MultiStream passed as multi_stream= to 2–5 successive lle '
+        'helper indexes it), chemical collections as tuple / list / bare string; in 20–25 % of the mix_and_split / '
+        'mix_and_split_with_moisture_content calls the bottom outlet was created under an equivalent property package with the '
+        'chemicals in another order; 10 % of the cases are holder histories: ONE MultiStream passed as multi_stream= to 2–5 successive lle '
         '(or vle) calls with different feeds / efficiencies / top chemicals, and single calls get a pre-filled holder in '
         '~25 % of the lle/vle ops; split vectors j/64; K = 2^e·(1+j/8) within 1e-3…1e3 (all-below-1, all-above-1, exactly-1 and mixed '
         'sets; 12 % of the partition calls with chemicals to force put every K on one side of 1 and force material only into '
@@ -67,6 +69,7 @@ CHEMS = ['Water', 'Ethanol', 'Methanol', 'Glycerol', 'Octane', 'Propanol']
 MW_WATER_LITERAL = 18.01528
 tmo = sep = np = None
 THERMO = {}
+THERMO_PERM = {}      # n -> package with the same chemicals, rotated order
 MWS = {}
 REC = {}            # what the wrappers recorded during the current call
 RTOL, ATOL = 1e-9, 1e-11
@@ -89,6 +92,9 @@ def setup():
         chems = tmo.Chemicals(CHEMS[:n], cache=True)
         THERMO[n] = tmo.Thermo(chems, cache=False)
         MWS[n] = [float(c.MW) for c in chems]
+        if n >= 2:
+            # an equivalent property package: the same chemicals in another ORDER (rotated by one)
+            THERMO_PERM[n] = tmo.Thermo(tmo.Chemicals(CHEMS[1:n] + CHEMS[:1], cache=True), cache=False)
     tmo.settings.set_thermo(THERMO[6])
 
     if not getattr(sep.compute_phase_fraction, '_verif', False):
@@ -153,7 +159,19 @@ def mk(n, flows, phase='l', T=298.15, P=101325.):
 
 
 def arr(s):
-    return [float(x) for x in s.mol.to_array()]
+    """flows in the order of CHEMS, whatever property package (chemical order) the stream was created under"""
+    n = len(s.chemicals)
+    if tuple(c.ID for c in s.chemicals) == tuple(CHEMS[:n]):
+        return [float(x) for x in s.mol.to_array()]
+    return [float(s.imol[CHEMS[i]]) for i in range(n)]
+
+
+def mk_perm(n, flows):
+    """a stream created under the equivalent package with permuted chemical order; `flows` are in the order of CHEMS"""
+    s = tmo.Stream(None, thermo=THERMO_PERM[n], T=298.15, P=101325., phase='l')
+    for i, x in enumerate(list(flows or [])[:n]):
+        if x: s.imol[CHEMS[i]] = float(x)
+    return s
 
 
 STREAM_REPS = ['list', 'tuple', 'gen', 'iter', 'map']      # Iterable[Stream]: sequences and one-shot iterables
@@ -231,6 +249,7 @@ def op_ms(d, o):
     def call(top0, bot0):
         ins = [mk(n, f) for f in d['ins']]
         top, bottom = mk(n, top0), mk(n, bot0)
+        if d.get('perm_bot') and n >= 2: bottom = mk_perm(n, bot0)      # outlet under an equivalent package, other order
         # aliasing: an outlet object is also one of the inlets (mix_and_split is alias-safe: the mixed flow is
         # computed before any outlet is written)
         if d.get('alias_top') is not None: top = ins[d['alias_top'] % len(ins)]
@@ -254,6 +273,7 @@ def op_ms(d, o):
     if any(t) and any(b): o.nontrivial = True
     o.tags.append('ms' + (':aliased' if d.get('alias_top') is not None or d.get('alias_bot') is not None else ''))
     o.tags.append('rep:ins:' + (d.get('rep') or 'list'))
+    if d.get('perm_bot') and n >= 2: o.tags.append('ms:outlet-other-package-order')
 
 
 def op_am(d, o):
@@ -334,6 +354,7 @@ def op_msm(d, o):
     def call(r0, p0):
         ins = [mk(n, f) for f in d['ins']]
         r, p = mk(n, r0), mk(n, p0)
+        if d.get('perm_bot') and n >= 2: p = mk_perm(n, p0)
         try:
             if d.get('kwargs'):      # the public keywords of the wrapper
                 sep.mix_and_split_with_moisture_content(as_rep(ins, d.get('rep')), r, p, np.array(d['split'], float),
@@ -360,6 +381,7 @@ def op_msm(d, o):
                f'mix_and_split_with_moisture_content(ID={ID!r}, strict={strict}) gives {res}; mix_and_split followed by '
                f'adjust_moisture_content(ID={ID!r}, strict={strict}) gives {ref}')
     if k != 0: o.tags.append('msm:non-water-ID')
+    if d.get('perm_bot') and n >= 2: o.tags.append('msm:outlet-other-package-order')
     line = (f'msm n={n} ins={VS(d["ins"])} split={V(d["split"])} MW={V(MW)} k={k} mode={mode} mwc={frac(MW_WATER_LITERAL)} '
             f'mc={frac(mc)} strict={"none" if strict is None else int(strict)}')
     total = [sum(x) for x in zip(*d['ins'])]
@@ -1198,6 +1220,7 @@ def gen_op(rng):
         if rng.random() < 0.2: d['alias_bot'] = rng.randrange(k)
         if d.get('alias_top') is not None and d.get('alias_top') == d.get('alias_bot'): del d['alias_bot']
         d['rep'] = rng.choice(STREAM_REPS)
+        if d.get('alias_bot') is None and rng.random() < 0.25: d['perm_bot'] = 1
         return 'ms ' + json.dumps(d)
     if r < 0.535:                                     # mix_and_split_with_moisture_content
         n = max(n, 2)
@@ -1208,7 +1231,7 @@ def gen_op(rng):
         ins[0][k] += 64.0 * rng.randrange(0, 40)          # wash liquid
         split = [rng.randrange(32, 65) / 64 for _ in range(n)]
         split[k] = rng.randrange(0, 9) / 64
-        return 'msm ' + json.dumps(dict(n=n, ins=ins, split=split, k=k, mode=mode, kwargs=int(rng.random() < 0.5), mc=rng.randrange(1, 61) / 64, rep=rng.choice(STREAM_REPS),
+        return 'msm ' + json.dumps(dict(n=n, ins=ins, split=split, k=k, mode=mode, kwargs=int(rng.random() < 0.5), perm_bot=int(rng.random() < 0.2), mc=rng.randrange(1, 61) / 64, rep=rng.choice(STREAM_REPS),
                                         strict=rng.choice([None, True, False]), top0=stale(rng, n), bot0=stale(rng, n)))
     if r < 0.64:                                      # adjust_moisture_content
         mode = 'mol' if rng.random() < 0.5 else 'mass'
